@@ -152,7 +152,7 @@ pub fn teardown_trial(idx: usize, seed: u64) -> ScenarioResult {
         for l in &lines {
             let took: u64 = field(l, "took_ms=").parse().unwrap_or(0);
             let bound: u64 = field(l, "idle_bound_ms=").parse().unwrap_or(0);
-            let rest_ok = field(l, "returned=") == "true" && field(l, "closed=") == "true" && field(l, "peers=") == "0" && field(l, "subscribe_err=") == "true" && field(l, "weak_dead=") == "true";
+            let rest_ok = field(l, "returned=") == "true" && field(l, "closed=") == "true" && field(l, "peers=") == "0" && field(l, "subscribe_err=") == "true" && field(l, "weak_dead=") == "true" && field(l, "service_clones_live=") == "0" && field(l, "handlers_running=") == "0";
             if !rest_ok {
                 other.push(l.to_string());
             } else if field(l, "rebind_ok=") == "false" {
